@@ -69,6 +69,8 @@ fn substitute<R: Rng>(rng: &mut R, honest: &Chunk, pool: &[Chunk]) -> (Vec<u8>, 
 #[derive(Clone, Copy, Debug, PartialEq, Eq)]
 enum PadClass {
     Authentic,
+    /// as created and never signed: counter 0, empty payload, no signature
+    Blank,
     Unsigned,
     BadSignature,
     ForeignOwner,
@@ -309,10 +311,11 @@ fn vault_case(cx: &mut Cx) {
         let class = if honest_only {
             PadClass::Authentic
         } else {
-            *[PadClass::Authentic, PadClass::Authentic, PadClass::Authentic, PadClass::Unsigned, PadClass::BadSignature, PadClass::ForeignOwner, PadClass::ForeignOwner, PadClass::WrongKind, PadClass::Garbage].choose(&mut cx.rng).expect("nonempty")
+            *[PadClass::Authentic, PadClass::Authentic, PadClass::Authentic, PadClass::Unsigned, PadClass::Blank, PadClass::BadSignature, PadClass::ForeignOwner, PadClass::ForeignOwner, PadClass::WrongKind, PadClass::Garbage].choose(&mut cx.rng).expect("nonempty")
         };
-        let plaintext: Vec<u8> = format!("version-{i}-{}", hex(&gen::bytes(&mut cx.rng, 6))).into_bytes();
+        let plaintext: Vec<u8> = if class == PadClass::Blank { vec![] } else { format!("version-{i}-{}", hex(&gen::bytes(&mut cx.rng, 6))).into_bytes() };
         let counter = match class {
+            PadClass::Blank => 0,
             PadClass::Authentic => {
                 if i > 0 && cx.rng.gen_bool(0.2) {
                     versions[0].counter
@@ -326,6 +329,7 @@ fn vault_case(cx: &mut Cx) {
         let cipher = owner.public_key().encrypt_with_rng(&mut cx.rng, &plaintext).to_bytes();
         let value = match class {
             PadClass::Authentic => gen::pad_record(&gen::pad(&owner, counter, &cipher, 7)).value,
+            PadClass::Blank => gen::pad_record(&ant_protocol::storage::Scratchpad::new(owner.public_key(), 7)).value,
             PadClass::Unsigned => {
                 let mut raw = gen::RawPad::from_pad(&gen::pad(&owner, counter, &cipher, 7));
                 raw.signature = None;
